@@ -173,10 +173,13 @@ private:
       const variable_t &pivot = kv.second;
       Interval res = compute_residual(cst, pivot, env);
       Interval rhs = Interval::top();
+      // whether c * rhs == res, i.e., the division res / c is exact
+      bool is_exact_rhs = false;
       if (!res.is_top()) {
         Interval ic =
             interval_traits::mk_interval<Interval>(c, get_bitwidth(pivot));
         rhs = res / ic;
+        is_exact_rhs = (rhs * ic == res);
       }
 
       if (cst.is_equality()) {
@@ -200,7 +203,12 @@ private:
       } else if (cst.is_strict_inequality()) {
         // do nothing
       } else {
-        // cst is a disequation
+        // cst is a disequation: c * pivot != res.  If res / c is not
+        // exact then rhs is a rounded quotient and trimming pivot
+        // with it would remove feasible values.
+        if (!is_exact_rhs) {
+          continue;
+        }
         Interval old_i = env.at(pivot);
         Interval new_i = interval_traits::trim_interval(old_i, rhs);
         if (new_i.is_bottom()) {
